@@ -424,6 +424,8 @@ func (fr *Frame) selectOp(st *State, in *ssa.Select) Val {
 	for i, s := range in.States {
 		chosen := Eq(idx, IntLit(int64(i)))
 		ch := fr.val(st, s.Chan)
+		// a case on a nil channel is never ready
+		ex.assume(st, Implies(chosen, Neq(ch.T, TNull)))
 		if s.Dir == types.SendOnly {
 			x := fr.val(st, s.Send)
 			fr.chanSend(st, ch.T, x.T, s.Chan.Type(), chosen, s.Pos)
